@@ -84,6 +84,52 @@ fn main() {
         });
         sink.merge(ss);
     }
+    // hellos with the extension blocks of deployed stacks and every "semantic" extension in first / middle position
+    // of a multi-message record (a decoder that looks into the block of one message must still return the others)
+    {
+        let mut blocks: Vec<Vec<u8>> = cat::hello_profiles();
+        blocks.extend(cat::semantic_extensions().into_iter().map(|e| e.1));
+        let fin = cat::hs(20, |w| {
+            w.fill(12, 0x77);
+        });
+        let hr = cat::hs(0, |_| {});
+        let cke = cat::hs(16, |w| {
+            w.fill(33, 4);
+        });
+        let mut multi: Vec<vcommon::en::W> = Vec::new();
+        for block in &blocks {
+            for (server, version) in [(true, 0x0303u16), (true, 0x0301), (false, 0x0303)] {
+                let hello = cat::hs(if server { 2 } else { 1 }, |w| {
+                    w.u16(version);
+                    w.fill(32, 0x20);
+                    w.block(1, "sid_len", |w| {
+                        w.fill(32, 9);
+                    });
+                    if server {
+                        w.u16(0x1301).u8(0);
+                    } else {
+                        w.block(2, "ciphers_len", |w| {
+                            w.u16(0x1301).u16(0x00ff);
+                        });
+                        w.block(1, "comp_len", |w| {
+                            w.u8(0);
+                        });
+                    }
+                    w.block(2, "ext_len", |w| {
+                        w.bytes(block);
+                    });
+                });
+                let second = if server { &fin } else { &cke };
+                multi.push(cat::record(0x16, 0x0303, |w| {
+                    w.append(&hello).append(second);
+                }));
+                multi.push(cat::record(0x16, 0x0303, |w| {
+                    w.append(&hr).append(&hello).append(second).append(&hr);
+                }));
+            }
+        }
+        sink.merge(struct_sweep(&run, &targets, &multi, 0, &sfx, 16, &extra));
+    }
     {
         let recs13: Vec<vcommon::en::W> = cat::tls13_messages().into_iter().filter(|m| m.buf.len() <= 16000).map(|m| cat::record(0x16, 0x0303, |w| { w.append(&m); })).collect();
         sink.merge(struct_sweep(&run, &targets, &recs13, 0, &sfx, 16, &extra));
